@@ -119,6 +119,11 @@ func safeRequestT(r *t_api.Request) (t term) {
 			t = C("QSearchSchedules", S(""), L(), int64(0), nil)
 		}
 	}()
+	// a search that names no states (nil, not the empty list) is not something the kernel can take: the store asserts
+	// on it; the model's request type has no nil, so it is reported as the invalid search as well
+	if r.Kind == t_api.SearchPromises && r.SearchPromises != nil && r.SearchPromises.States == nil {
+		return C("QSearchSchedules", S(""), L(), int64(0), nil)
+	}
 	return RequestT(r)
 }
 
@@ -134,6 +139,9 @@ func forgedCursors() []string {
 		{Id: "*", States: []promise.State{promise.Pending}, Tags: map[string]string{}, Limit: 0},
 		{Id: "", States: []promise.State{promise.Pending}, Tags: map[string]string{}, Limit: 10},
 		{Id: "*", States: nil, Tags: nil, Limit: -5, SortId: &zero},
+		{Id: "*", States: nil, Tags: map[string]string{}, Limit: 10},                       // as valid as a fresh request, except that it names no states at all
+		{Id: "*", States: nil, Tags: nil, Limit: 10, SortId: &zero},
+		{Id: "a*", States: []promise.State{}, Tags: nil, Limit: 1},
 		nil,
 	} {
 		c := &t_api.Cursor[t_api.SearchPromisesRequest]{Next: next}
@@ -169,12 +177,14 @@ func httpCases(r *rng) []rawHTTP {
 		add("POST", "/promises/task", j(map[string]any{"promise": pv(), "task": pv()}), hdr())
 		add("PATCH", "/promises/"+pick(r, []string{"p", "a%2Fb", "a/b", "%00", " "}), j(map[string]any{"state": pv(), "value": pv()}), hdr())
 		add("PATCH", "/promises/p", j(map[string]any{"state": pick(r, []any{"RESOLVED", "REJECTED", "REJECTED_CANCELED", "REJECTED_TIMEDOUT", "PENDING", "resolved", 2, "X"}), "value": map[string]any{"headers": pv(), "data": pv()}}), hdr())
+		// every state name (any letter case is accepted by the decoder) with an otherwise valid body
+		add("PATCH", "/promises/p", j(map[string]any{"state": pick(r, []any{"PENDING", "pending", "Pending", "REJECTED_TIMEDOUT", "rejected_timedout", "RESOLVED", "REJECTED", "REJECTED_CANCELED", "resolved"})}), hdr())
 		add("GET", "/promises?id="+pick(r, []string{"*", "", "a*", "%25"})+"&state="+pick(r, []string{"", "pending", "PENDING", "x", "rejected"})+"&limit="+pick(r, []string{"", "0", "1", "100", "101", "-1", "x", "99999999999999999999"}), "", hdr())
 		add("GET", "/promises?cursor="+pick(r, forgedCursors()), "", hdr())
 		add("GET", "/promises/"+pick(r, []string{"p", "a/b", "a%2Fb"}), "", hdr())
 		add("POST", "/callbacks", j(map[string]any{"Id": pv(), "promiseId": pv(), "rootPromiseId": pv(), "timeout": pv(), "recv": pick(r, []any{nil, "default", map[string]any{"type": "poll", "data": nil}, 5, []any{}, map[string]any{}})}), hdr())
 		add("POST", "/subscriptions", j(map[string]any{"Id": pv(), "promiseId": pv(), "timeout": pv(), "recv": pick(r, []any{nil, "default", map[string]any{"type": "x"}, 5})}), hdr())
-		add("POST", "/schedules", j(map[string]any{"id": pv(), "cron": pick(r, []any{"* * * * *", "", "x", nil, 5, "@every 1s", "* * * * * * *"}), "promiseId": pv(), "promiseTimeout": pv(), "promiseParam": pv(), "promiseTags": pv(), "tags": pv()}), hdr())
+		add("POST", "/schedules", j(map[string]any{"id": pv(), "cron": pick(r, []any{"* * * * *", "", "x", nil, 5, "@every 1s", "* * * * * * *", "TZ=UTC", "CRON_TZ=Europe/Paris", "TZ=UTC * * * * *", "@every", "@"}), "promiseId": pv(), "promiseTimeout": pv(), "promiseParam": pv(), "promiseTags": pv(), "tags": pv()}), hdr())
 		add("GET", "/schedules?id="+pick(r, []string{"*", ""})+"&limit="+pick(r, []string{"", "0", "-1", "101", "5"}), "", hdr())
 		add("GET", "/schedules?cursor="+pick(r, forgedCursors()), "", hdr())
 		add("DELETE", "/schedules/"+pick(r, []string{"s", "a/b"}), "", hdr())
@@ -343,7 +353,7 @@ func cmdFront(args []string) {
 			call(fmt.Sprintf("ReleaseLock %v", rl), func() error { _, e := gs.ReleaseLock(ctx, rl); return e })
 			hl := &pb.HeartbeatLocksRequest{ProcessId: pick(r, strs)}
 			call(fmt.Sprintf("HeartbeatLocks %v", hl), func() error { _, e := gs.HeartbeatLocks(ctx, hl); return e })
-			sc := &pb.CreateScheduleRequest{Id: pick(r, strs), Cron: pick(r, []string{"", "x", "* * * * *", "@every 1s"}), PromiseId: pick(r, strs), PromiseTimeout: pick(r, i64), PromiseParam: pick(r, vals)}
+			sc := &pb.CreateScheduleRequest{Id: pick(r, strs), Cron: pick(r, []string{"", "x", "* * * * *", "@every 1s", "TZ=UTC", "CRON_TZ=Europe/Paris", "TZ=UTC * * * * *", "@every", "@"}), PromiseId: pick(r, strs), PromiseTimeout: pick(r, i64), PromiseParam: pick(r, vals)}
 			call(fmt.Sprintf("CreateSchedule %v", sc), func() error { _, e := gs.CreateSchedule(ctx, sc); return e })
 			ss := &pb.SearchSchedulesRequest{Id: pick(r, []string{"", "*"}), Limit: pick(r, i32), Cursor: pick(r, []string{"", "garbage"})}
 			call(fmt.Sprintf("SearchSchedules %v", ss), func() error { _, e := gs.SearchSchedules(ctx, ss); return e })
